@@ -25,6 +25,11 @@ Definition len3 (v : N) : list byte := bytes_of_bits 3 (to_bits 24 v).
 Definition set_len3 (b : list byte) (off : nat) (v : N) : list byte :=
   firstn off b ++ len3 v ++ skipn (off + 3) b.
 
+(* the message b with the length field of its section 4 (declared length sl,
+   followed only by the four octets of section 5) overwritten by v *)
+Definition dmg_len4 (b : list byte) (sl v : Z) : list byte :=
+  set_len3 b (length b - 4 - Z.to_nat sl) (Z.to_N v).
+
 Lemma bits_len3 v : bits_of_bytes (len3 v) = to_bits 24 v.
 Proof. unfold len3. apply (bits_of_bytes_of_bits 3). apply length_to_bits. Qed.
 
@@ -172,6 +177,146 @@ Proof.
   - unfold read_bin. destruct (Z.ltb_spec (v * 8 - 32) 0); [lia|]. unfold take_bits.
     destruct (Nat.ltb_spec (length tail) (Z.to_nat (v * 8 - 32))); [lia|]. cbn [bind]. eexists. eexists. reflexivity.
   - destruct (Z.ltb_spec (v * 8 - 32) 0); [lia|]. cbn [bind]. eexists. eexists. reflexivity.
+Qed.
+
+
+Lemma decode_section0_min props R sec props' r' :
+  decode_section dd section0 props R = Ok (sec, props', r') -> (32 <= length R)%nat.
+Proof.
+  unfold decode_section. intros H. apply bind_ok in H as ([[env props1] r1] & Hp & _).
+  cbn [section0 s_params decode_params p_type p_nbits] in Hp. change (32 =? 0)%Z with false in Hp. cbv iota in Hp.
+  apply bind_ok in Hp as ([v1 ra] & H1 & _). unfold read_typed in H1.
+  apply bind_ok in H1 as ([l rx] & Hb & _). unfold read_bytes in Hb. change (32 / 8 <? 0)%Z with false in Hb.
+  cbv iota in Hb. apply bind_ok in Hb as ([b ry] & Ht & _). apply take_bits_ok in Ht as [-> Lb].
+  change (8 * Z.to_nat (32 / 8))%nat with 32%nat in Lb. rewrite app_length. lia.
+Qed.
+
+Lemma value_matches_uint ve z : value_matches ve (PUint z) -> ve = PUint z.
+Proof. intros [H|(b & k & _ & H)]; [auto|discriminate]. Qed.
+Lemma value_matches_data ve d : value_matches ve (PData d) -> ve = PData d.
+Proof. intros [H|(b & k & _ & H)]; [auto|discriminate]. Qed.
+
+(* THE overrun theorem, message level.  For an encoded message (hypotheses of
+   C04_frame_roundtrip): its last two sections are 4 and 5, section 4 has the
+   values (declared length sl, reserved bits, data); overwrite the length field
+   of section 4 (three octets at |m| - 4 - sl) with any v whose 8v bits do not
+   hold the section's content (32 + |data| bits): the full decode of the result
+   followed by ANY bytes is the library's overrun error; if moreover
+   4 <= v <= sl the metadata-only decode succeeds, with one and the same result
+   whatever follows, and still reports the total length |m| *)
+Theorem damaged_section4_length : forall ign json m,
+  encode_message ign json = Ok m ->
+  Forall sec_fits (m_sections m) -> Forall desc_fill_ok (m_sections m) -> data_ok dd [] (m_sections m) ->
+  exists pre s4 s5 sl rb data,
+    m_sections m = pre ++ [s4; s5] /\
+    sec_values s4 = [(Nsection_length, PUint sl); (Nreserved_bits, rb); (Ntemplate_data, PData data)] /\
+    (0 <= sl)%Z /\ (Z.to_nat sl + 8 <= length (m_bytes m))%nat /\
+    forall v, (0 <= v < 2 ^ 24)%Z -> (8 * v < 32 + Z.of_nat (length data))%Z ->
+      length (dmg_len4 (m_bytes m) sl v) = length (m_bytes m) /\ starts_sig (dmg_len4 (m_bytes m) sl v) /\
+      (forall t, decode_message dd None false false (dmg_len4 (m_bytes m) sl v ++ t) = Err ELib) /\
+      ((4 <= v <= sl)%Z ->
+         exists mi, (forall t, decode_message dd None true false (dmg_len4 (m_bytes m) sl v ++ t) = Ok mi) /\
+                    prop_get Nlength (m_props mi) = Some (PUint (Z.of_nat (length (m_bytes m))))).
+Proof.
+  intros ign json m Henc Hfits Hdfs Hdat.
+  destruct (frame_roundtrip dd ign json m [] Henc Hfits Hdfs Hdat) as (m' & Hdec & Hbm & Hsm & _).
+  rewrite app_nil_r in Hdec.
+  destruct (encoded_decodes dd dd_prefix dd_suffix _ _ _ Henc Hfits Hdfs Hdat) as (m'' & Hdec' & _ & Hn & _ & H12).
+  rewrite Hdec in Hdec'. injection Hdec' as <-.
+  destruct (encoded_full_decode dd dd_prefix dd_suffix _ _ _ Henc Hfits Hdfs Hdat) as (Hf & _).
+  rewrite (decode_sig_none _ _ _ _ _ Hf) in Hdec.
+  pose proof (encoded_declared dd _ _ _ _ _ Henc Hdec) as Hlen.
+  pose proof Hf as Hf2. apply find_sig_0_starts, starts_with_split in Hf2. destruct Hf2 as (sb & Esb).
+  set (L := length (m_bytes m)) in *.
+  pose proof Hdec as Hd0. unfold decode_message, decode_message_with in Hd0. cbn [bind] in Hd0.
+  change (skipn 0 (m_bytes m)) with (m_bytes m) in Hd0.
+  apply bind_ok in Hd0 as ([[secs props] r'] & Hs & Hm). apply ok_inj in Hm. subst m'.
+  cbn [m_sections m_props] in Hn, Hsm, Hlen.
+  destruct (decode_sections_nbits dd dd_cuts _ _ _ _ _ _ _ _ _ _ Hs) as (E & new & HE & Hnew & HlE).
+  cbn [app] in Hnew. subst new.
+  assert (Lr : length (bits_of_bytes (m_bytes m)) = (8 * L)%nat) by apply length_bits_of_bytes.
+  assert (Hr' : r' = []) by (apply length_zero_iff_nil; rewrite HE, app_length in Lr; lia). subst r'.
+  destruct (split0123 _ _ _ _ Hs) as (e & secs1 & props1 & r1 & Er & Le & G & Hcont).
+  (* sections 4 and 5 of the original *)
+  rewrite decode_sections_cons1, configure_4, transform_full4 in Hcont. cbn [bind] in Hcont.
+  apply bind_ok in Hcont as ([[sec4 props2] r2] & H4 & Hcont). change (s_end section4) with false in Hcont. cbv iota in Hcont.
+  pose proof Hcont as Hk5.
+  rewrite decode_sections_cons1, configure_5 in Hcont. cbn [bind] in Hcont.
+  apply bind_ok in Hcont as ([[sec5 props3] r3] & H5 & Hcont).
+  destruct (decode_section5 dd false false _ _ _ _ _ H5) as [Hn5 He5]. rewrite He5 in Hcont.
+  injection Hcont as <- _ ->.
+  destruct (decode_section_nbits dd dd_cuts _ _ _ _ _ _ H5) as (e5 & E5 & Hl5). rewrite app_nil_r in E5. subst r2.
+  destruct (section4_shape _ _ _ _ _ H4) as (b24 & b8 & data & rA & Er1 & L24 & L8 & Hdd & Hv4 & (k & Hlr1 & ErA)).
+  subst r1 rA.
+  set (sl := Z.of_N (of_bits b24)) in *.
+  assert (Ll : (8 * L = length e + 8 * Z.to_nat sl + 32)%nat) by (rewrite <- Lr, Er, app_length, Hlr1; lia).
+  assert (He32 : (32 <= length e)%nat).
+  { pose proof (G false []) as G0. cbn [run] in G0. rewrite configure_0 in G0. cbn [bind] in G0.
+    apply bind_ok in G0 as ([[sec0 p0] r0] & H0 & _). apply decode_section0_min in H0.
+    rewrite app_nil_r in H0. exact H0. }
+  (* the encoder's view of the last two sections *)
+  rewrite <- app_assoc in Hsm. cbn [app] in Hsm.
+  apply Forall2_app_inv_r in Hsm as (pre & l2 & Hpre & Hl2 & Esecs).
+  inversion Hl2 as [|s4 y4 l3 l4 Hm4 Hl3 E1 E2]. subst l2. clear E2 Hl2.
+  inversion Hl3 as [|s5 y5 l5 l6 Hm5 Hl5' E1 E2]. subst l3. clear E2 Hl3.
+  inversion Hl5'. subst l5. clear Hl5'.
+  destruct Hm4 as (_ & _ & _ & Hvals). rewrite Hv4 in Hvals.
+  assert (Hs4 : exists rb, sec_values s4 = [(Nsection_length, PUint sl); (Nreserved_bits, rb); (Ntemplate_data, PData data)]).
+  { destruct (sec_values s4) as [|[n1 v1] [|[n2 v2] [|[n3 v3] [|]]]]; try (exfalso; inversion Hvals; fail).
+    - exfalso. inversion Hvals as [|? ? ? ? _ Hv']. inversion Hv'.
+    - exfalso. inversion Hvals as [|? ? ? ? _ Hv']. inversion Hv' as [|? ? ? ? _ Hv'']. inversion Hv''.
+    - inversion Hvals as [|? ? ? ? [N1 V1] Hv']. inversion Hv' as [|? ? ? ? [N2 V2] Hv'']. inversion Hv'' as [|? ? ? ? [N3 V3] _].
+      cbn [fst snd] in *. apply value_matches_uint in V1. apply value_matches_data in V3.
+      exists v2. congruence.
+    - exfalso. inversion Hvals as [|? ? ? ? _ Hv']. inversion Hv' as [|? ? ? ? _ Hv'']. inversion Hv'' as [|? ? ? ? _ Hv3]. inversion Hv3. }
+  destruct Hs4 as (rb & Hs4).
+  exists pre, s4, s5, sl, rb, data. split; [exact Esecs|]. split; [exact Hs4|].
+  split; [lia|]. split; [lia|].
+  intros v Hv Hover. unfold dmg_len4. fold L.
+  set (o4 := (L - 4 - Z.to_nat sl)%nat).
+  assert (Ho4 : length e = (8 * o4)%nat) by (unfold o4; lia).
+  assert (Ho4L : (o4 + 3 <= L)%nat) by (unfold o4; lia).
+  set (rA := k ++ e5) in *.
+  (* the bits of the damaged message *)
+  set (b24' := to_bits 24 (Z.to_N v)).
+  assert (L24' : length b24' = 24%nat) by apply length_to_bits.
+  assert (Ob : Z.of_N (of_bits b24') = v).
+  { unfold b24'. rewrite of_bits_to_bits; [lia|]. change (2 ^ N.of_nat 24)%N with (Z.to_N (2 ^ 24)). lia. }
+  assert (Ebits : bits_of_bytes (set_len3 (m_bytes m) o4 (Z.to_N v)) = e ++ b24' ++ b8 ++ data ++ rA).
+  { unfold set_len3. rewrite !bits_of_bytes_app, bits_len3, bits_of_bytes_firstn, bits_of_bytes_skipn, Er.
+    rewrite (firstn_app_exact (8 * o4) e _ Ho4).
+    replace (8 * (o4 + 3))%nat with (length e + 24)%nat by lia.
+    rewrite skipn_app, skipn_all2 by lia. replace (length e + 24 - length e)%nat with 24%nat by lia.
+    rewrite (skipn_app_exact 24 b24 _ L24). reflexivity. }
+  split; [apply length_set_len3, Ho4L|]. split.
+  { assert (4 <= o4)%nat by lia.
+    unfold set_len3. rewrite Esb, firstn_app. change (length sig_BUFR) with 4%nat.
+    rewrite (@firstn_all2 _ o4 sig_BUFR) by (change (length sig_BUFR) with 4%nat; lia).
+    rewrite <- app_assoc. eexists. reflexivity. }
+  split.
+  { intros t. unfold decode_message, decode_message_with. cbn [bind].
+    change (skipn 0 (set_len3 (m_bytes m) o4 (Z.to_N v) ++ t)) with (set_len3 (m_bytes m) o4 (Z.to_N v) ++ t).
+    rewrite bits_of_bytes_app, Ebits, <- !app_assoc.
+    change section_indices with ([0;1;2;3]%N ++ [4;5;6]%N). rewrite decode_sections_split, (G false). cbn [bind]. cbv iota.
+    rewrite decode_sections_cons1, configure_4, transform_full4. cbn [bind].
+    rewrite (section4_overrun props1 b24' b8 data (rA ++ bits_of_bytes t) L24' L8); [reflexivity| |lia].
+    rewrite (app_assoc data rA). apply dd_suffix, Hdd. }
+  intros Hv4le.
+  assert (Hi : exists mi, decode_message dd None true false (set_len3 (m_bytes m) o4 (Z.to_N v)) = Ok mi /\ m_props mi = props1).
+  { unfold decode_message, decode_message_with. cbn [bind].
+    change (skipn 0 (set_len3 (m_bytes m) o4 (Z.to_N v))) with (set_len3 (m_bytes m) o4 (Z.to_N v)).
+    rewrite Ebits.
+    change section_indices with ([0;1;2;3]%N ++ [4;5;6]%N). rewrite decode_sections_split, (G true). cbn [bind]. cbv iota.
+    rewrite decode_sections_cons1, configure_4, transform_info4. cbn [bind].
+    destruct (info4_decodes props1 b24' b8 (data ++ rA) L24' L8) as (sec & r'' & Hi4); [lia| |].
+    { rewrite !app_length in Hlr1. rewrite app_length. unfold rA. rewrite app_length. lia. }
+    rewrite Hi4. cbn [bind]. change (s_end info4) with true. cbv iota. eexists. split; reflexivity. }
+  destruct Hi as (mi & Hi & Hpi). exists mi.
+  destruct (decode_span dd dd_prefix dd_suffix _ _ _ _ _ Hi) as [Hall _]. split; [exact Hall|].
+  rewrite Hpi, <- Hlen. symmetry.
+  rewrite <- (decode_section_keeps dd Nlength section4 _ _ _ _ _ eq_refl H4).
+  eapply (decode_sections_keeps dd Nlength false false [5;6]%N); [|exact Hk5].
+  intros c0 Hc Hi0. apply definitions_length_owner; [exact Hc|]. intros E0. rewrite E0 in Hi0. cbn in Hi0. intuition discriminate.
 Qed.
 
 End Overrun.
